@@ -48,6 +48,9 @@ def _writes(node, table):
 
 
 def run(ck):
+    ck.rule("R5", "no loop walks a live view of a container of the graph while removing from that container", floor=15)
+    from rules.c30 import live_iteration_rules
+    live_iteration_rules(ck, "R5", [("miasm/core/asmblock.py", "AsmCFG")])
     m = ck.repo.mod(REL)
     meths = m.methods("AsmCFG")
     ck.rule("R1", "add_edge/del_edge update constraint table, graph edge and bto together", floor=5)
@@ -195,3 +198,19 @@ def run(ck):
                         outside[t].append("%s:%s" % (rel, q))
     for t in TABLES:
         ck.ob("R4", "who-writes:%s" % t, not outside[t], REL, "%s is written outside AsmCFG: %s" % (t, sorted(set(outside[t]))[:4]))
+
+
+def live_iteration_rules(ck, rid, classes):
+    """Shared by C27 / C30 / C31: no method walks a live view of one of its container fields while removing from it
+    (sa/liveiter: live-view and mutation summaries over the class's MRO, super() calls resolved to the next definition)."""
+    from sa.liveiter import ClassModel
+    n = 0
+    for rel, cname in classes:
+        cm = ClassModel(ck.repo, ck.repo.mod(rel), cname)
+        for m, name, loop, path, key, conf in cm.loops():
+            n += 1
+            field = "self." + path[0] + ("[%s]" % key if len(path) == 2 else "")
+            ck.ob(rid, "%s.%s:for %s in %s" % (cname, name, norm(loop.target)[:20], norm(loop.iter)[:40]), conf is None, m.where(loop),
+                  "the loop walks the live container %s while `%s` removes from it (%s): a list skips the element after each removal, so "
+                  "every second entry survives; iterate over a copy" % (field, conf[0] if conf else "", conf[3] if conf else ""))
+    return n
